@@ -654,6 +654,9 @@ func (m *MonC10) AfterBlock(o *BlockOutcome) {
 			continue
 		}
 		want := tg[vo]
+		if want.Sign() > 0 {
+			rep.Sample(map[string]any{"observed": "end-of-block voting power", "height": s.Height, "validator": m.R.W.Name(vo), "alliance_stake": ratStr(v.ModTokens), "target": ratStr(want), "native_bonded": ratStr(native), "flag_before_block_end": o.Pre.Flag})
+		}
 		rep.Eval("C10.target")
 		diff := new(big.Rat).Sub(v.ModTokens, want)
 		// two base units, plus the target's sensitivity to the native bonded amount (sum of weight x
